@@ -7,7 +7,9 @@ require (
 	github.com/alicebob/miniredis/v2 v2.30.2
 	github.com/anishathalye/porcupine v1.3.0
 	github.com/go-redis/redis/v8 v8.11.5
+	google.golang.org/genproto v0.0.0-20230306155012-7f2fa6fef1f4
 	google.golang.org/grpc v1.55.0
+	google.golang.org/protobuf v1.30.0
 	pgregory.net/rapid v1.3.0
 )
 
@@ -23,8 +25,6 @@ require (
 	github.com/oklog/ulid/v2 v2.1.0 // indirect
 	github.com/yuin/gopher-lua v1.1.0 // indirect
 	golang.org/x/sys v0.6.0 // indirect
-	google.golang.org/genproto v0.0.0-20230306155012-7f2fa6fef1f4 // indirect
-	google.golang.org/protobuf v1.30.0 // indirect
 )
 
 replace github.com/acquirecloud/golibs => /repo
